@@ -157,7 +157,7 @@ class Gen:
         r = self.rng
         if r.random() < 0.6: return ('I', 0, w, r.choice([0, 1, 2, 3, 4, 7, 8, w - 1, w, w + 1, 31, 32, 33]) % (1 << w))
         # a count that cannot fold to a huge constant (Python and Z.shiftl both materialise 2^count)
-        i = self.ident(w)
+        i = ('D', 'cnt%d' % w, w, 0, 0)        # a dedicated count identifier: states bind it to small values only
         c = r.random()
         if c < 0.4: return i
         if c < 0.7 and w >= 8: return ('O', '&', [i, ('I', 0, w, 0x1f)])
